@@ -179,7 +179,7 @@ Proof.
     + apply I2, Hsub, in_or_app. right. assumption.
   - intros x Hx Sx. apply in_app_or in Hx. destruct Hx as [Hx | [<- | Hx]].
     + apply I4; [apply Hsub, in_or_app; left |]; assumption.
-    + cbn [jq jstage] in *. inversion Sx as [Hit]. apply check_hit in Hit. destruct Hit as (c0 & Hc0 & Hsubset).
+    + cbn [jq jstage] in *. injection Sx as Hit. apply check_hit in Hit. destruct Hit as (c0 & Hc0 & Hsubset).
       destruct (I3 c0 Hc0) as (Hne & p & Hp & Ppot & Pans & Pcore).
       destruct (I2 b Hb) as [Hbq Bpot].
       exact (H p (jq b) c0 Hp Hbq Ppot Bpot Pans Pcore Hne Hsubset).
@@ -371,3 +371,237 @@ Proof.
   exists [CMain; CMain; CMain; CMain; CMain; CMain; CMain; CStart 0; CStart 1; CCb 0; CCb 1].
   split; reflexivity.
 Qed.
+
+(* ------------------------------------------------------------------ PASS is sound with the cache, without
+   any completeness assumption on the solver: it suffices that the solver's `unsat` answers and its
+   NON-EMPTY cores are true.  `sem ids = true` reads "the assertions named by ids are jointly
+   unsatisfiable" (so sem [] = false for any real semantics: an empty core list can never be a true
+   core, which is why it is exempt below). *)
+
+Lemma chain_pass_inv : forall ns nu nk ne nst nn : Z,
+  (0 <= ns -> 0 <= ne -> 0 <= nk -> 0 <= nst -> 0 <= nn ->
+   fst (verdict_chain ns nu nk ne nst nn) = LPass ->
+   ns = 0 /\ ne = 0 /\ nk = 0 /\ nst = 0 /\ 0 < nn)%Z.
+Proof.
+  intros ns nu nk ne nst nn Hs He Hk Hst Hn P.
+  destruct (chain_cases ns nu nk ne nst nn Hs He Hk Hst Hn) as (H1 & H2 & H3 & H4 & H5 & H6).
+  destruct (Z_lt_le_dec 0 ns) as [L1 | L1]; [rewrite (H1 L1) in P; discriminate P |].
+  assert (E1 : ns = 0%Z) by lia.
+  destruct (Z_lt_le_dec 0 ne) as [L2 | L2]; [rewrite (H2 E1 L2) in P; discriminate P |].
+  assert (E2 : ne = 0%Z) by lia.
+  destruct (Z_lt_le_dec 0 nk) as [L3 | L3]; [rewrite (H3 E1 E2 L3) in P; discriminate P |].
+  assert (E3 : nk = 0%Z) by lia.
+  destruct (Z_lt_le_dec 0 nst) as [L4 | L4]; [rewrite (H4 E1 E2 E3 L4) in P; discriminate P |].
+  assert (E4 : nst = 0%Z) by lia.
+  destruct (Z_lt_le_dec 0 nn) as [L5 | L5]; [repeat split; assumption |].
+  assert (E5 : nn = 0%Z) by lia. rewrite (H5 E1 E2 E3 E4 E5) in P. discriminate P.
+Qed.
+
+Definition non_unsat (a : answer) : bool := negb (is_unsat a).
+
+Lemma non_unsat_cnt : forall l, cnt non_unsat l = cnt is_sat l + cnt is_unknown l + cnt is_err l.
+Proof. induction l as [| a l IH]; cbn [cnt]; [reflexivity |]. destruct a; cbn; lia. Qed.
+
+Lemma verdict_pass_inv : forall outs ns nn,
+  fst (verdict_of outs ns nn) = LPass -> cnt non_unsat outs = 0 /\ ns = 0 /\ 0 < nn.
+Proof.
+  intros outs ns nn P. unfold verdict_of, counter in P.
+  rewrite (cnt_ext _ _ is_sat outs key_sat), (cnt_ext _ _ is_unsat outs key_unsat),
+          (cnt_ext _ _ is_unknown outs key_unknown), (cnt_ext _ _ is_err outs key_err) in P.
+  apply chain_pass_inv in P; try lia. rewrite non_unsat_cnt. lia.
+Qed.
+
+Section SemanticPass.
+  Variable sem : list nat -> bool.
+  Hypothesis sem_mono : forall a b, (forall x, In x a -> In x b) -> sem a = true -> sem b = true.
+  Variable qs : list qpath.
+  Hypothesis solver_sound : forall p, In p qs -> potential (base p) = true -> ans (base p) = Unsat ->
+    sem (qids p) = true /\ (forall c, qcore p = Some c -> c <> [] -> sem c = true).
+
+  (* a potential violation whose query is not unsatisfiable *)
+  Definition bad (q : qpath) : bool := potential (base q) && negb (sem (qids q)).
+  Definition badjob (b : job) : bool := bad (jq b).
+  Definition cstuckq (q : qpath) : bool := confirmed_stuck (base q).
+  Definition succq (q : qpath) : bool := succeeded (base q).
+
+  Record sinv (c : cst) : Prop := mksinv {
+    si_todo : forall q, In q (ctodo c) -> In q qs;
+    si_jobs : forall b, In b (cjobs c) -> In (jq b) qs /\ potential (base (jq b)) = true;
+    si_cores : forall c0, In c0 (ccores c) -> sem c0 = true;
+    si_hit : forall b, In b (cjobs c) -> jstage b = Started true -> sem (qids (jq b)) = true;
+    si_count : cflag c = false ->
+        cnt bad qs <= cnt non_unsat (couts c) + cnt badjob (cjobs c) + cnt bad (ctodo c)
+        /\ cnstuck c + cnt cstuckq (ctodo c) = cnt cstuckq qs
+        /\ cnormal c + cnt succq (ctodo c) = cnt succq qs;
+    si_flag : cflag c = true -> In (Sat true) (couts c);
+    si_done : cmst c = MDone -> cflag c = false -> ctodo c = []
+  }.
+
+  Lemma sinv_init : sinv (cinit qs).
+  Proof.
+    constructor; cbn; try (intros; contradiction); try discriminate; try tauto.
+    intros _. repeat split; lia.
+  Qed.
+
+  Lemma sinv_set_mst : forall c m, sinv c -> (m = MDone -> cflag c = false -> ctodo c = []) -> sinv (cset_mst c m).
+  Proof. intros c m [] Hd. constructor; cbn; assumption. Qed.
+
+  Lemma bad_not_submit : forall q,
+    (match kind_action (kind (base q)) with ASubmit => true | _ => false end) = false -> bad q = false.
+  Proof. intros q H. unfold bad. rewrite <- action_submit, H. reflexivity. Qed.
+
+  Lemma sinv_step_main : forall c, sinv c -> sinv (cstep_main c).
+  Proof.
+    intros c I. unfold cstep_main.
+    destruct (cmst c) eqn:M; try assumption.
+    - destruct (ctodo c) eqn:T; [apply sinv_set_mst; [assumption | intros; assumption] |].
+      destruct (cflag c) eqn:F; apply sinv_set_mst; try assumption; [intros _ X; congruence | discriminate].
+    - destruct (ctodo c) as [| q rest] eqn:T; [apply sinv_set_mst; [assumption | intros; assumption] |].
+      destruct I as [I1 I2 I3 I4 I5 I6 I7].
+      assert (Hq : In q qs) by (apply I1; rewrite T; left; reflexivity).
+      assert (Hrest : forall x, In x rest -> In x qs) by (intros x Hx; apply I1; rewrite T; right; assumption).
+      pose proof (action_submit (base q)) as AS. pose proof (action_stuck (base q)) as AT. pose proof (action_normal (base q)) as AN.
+      destruct (kind_action (kind (base q))) eqn:A.
+      + (* submit *)
+        constructor; cbn; try assumption; try discriminate.
+        * intros b Hb. apply in_app_or in Hb. destruct Hb as [Hb | [<- | []]]; [apply I2; assumption |].
+          cbn [jq]. split; [assumption | symmetry; assumption].
+        * intros b Hb S. apply in_app_or in Hb. destruct Hb as [Hb | [<- | []]]; [apply I4; assumption | discriminate S].
+        * intros F. destruct (I5 F) as (C1 & C2 & C3). rewrite T in *. cbn [cnt] in *.
+          unfold cstuckq, succq in *. rewrite <- AT in C2. rewrite <- AN in C3. cbv iota in C2, C3.
+          rewrite cnt_app. cbn [cnt]. unfold badjob in *. cbn [jq]. repeat split; lia.
+      + (* stuck *)
+        case_eq (cflag c); intros F; [apply sinv_set_mst; [constructor; assumption | discriminate] |].
+        constructor; cbn; try assumption; try discriminate.
+        intros _. destruct (I5 F) as (C1 & C2 & C3). rewrite T in *. cbn [cnt] in *.
+        rewrite (bad_not_submit q) in C1 by (rewrite A; reflexivity).
+        unfold cstuckq, succq in *. rewrite <- AT in C2. rewrite <- AN in C3. cbv iota in C2, C3.
+        repeat split; try lia. destruct (stuck_counted (is_unsat (ans (base q)))); lia.
+      + (* normal *)
+        constructor; cbn; try assumption; try discriminate.
+        intros F. destruct (I5 F) as (C1 & C2 & C3). rewrite T in *. cbn [cnt] in *.
+        rewrite (bad_not_submit q) in C1 by (rewrite A; reflexivity).
+        unfold cstuckq, succq in *. rewrite <- AT in C2. rewrite <- AN in C3. cbv iota in C2, C3. repeat split; lia.
+      + (* none *)
+        constructor; cbn; try assumption; try discriminate.
+        intros F. destruct (I5 F) as (C1 & C2 & C3). rewrite T in *. cbn [cnt] in *.
+        rewrite (bad_not_submit q) in C1 by (rewrite A; reflexivity).
+        unfold cstuckq, succq in *. rewrite <- AT in C2. rewrite <- AN in C3. cbv iota in C2, C3. repeat split; lia.
+  Qed.
+
+  Lemma sinv_step_main_raise : forall c, sinv c -> sinv (cstep_main_raise c).
+  Proof.
+    intros c I. unfold cstep_main_raise.
+    destruct (cmst c); try (apply sinv_step_main; assumption).
+    destruct (ctodo c) as [| q rest]; [apply sinv_step_main; assumption |].
+    destruct (kind_action (kind (base q))); try (apply sinv_step_main; assumption).
+    destruct (is_err (ans (base q))); [apply sinv_set_mst; [assumption | discriminate] | apply sinv_step_main; assumption].
+  Qed.
+
+  Lemma sinv_step_start : forall j c, sinv c -> sinv (cstep_start j c).
+  Proof.
+    intros j c I. unfold cstep_start.
+    destruct (cfind j (cjobs c)) as [[[pre b] post] |] eqn:F; [| assumption].
+    destruct (jstage b) eqn:S; [| assumption].
+    destruct (cfind_spec _ _ _ _ _ F) as [E _].
+    destruct I as [I1 I2 I3 I4 I5 I6 I7].
+    assert (Hb : In b (cjobs c)) by (rewrite E; apply in_or_app; right; left; reflexivity).
+    assert (Hsub : forall x, In x (pre ++ post) -> In x (cjobs c)).
+    { intros x Hx. rewrite E. apply in_app_or in Hx. apply in_or_app. destruct Hx; [left | right; right]; assumption. }
+    constructor; cbn; try assumption.
+    - intros x Hx. apply in_app_or in Hx. destruct Hx as [Hx | [<- | Hx]].
+      + apply I2, Hsub, in_or_app. left. assumption.
+      + cbn [jq]. apply I2. assumption.
+      + apply I2, Hsub, in_or_app. right. assumption.
+    - intros x Hx Sx. apply in_app_or in Hx. destruct Hx as [Hx | [<- | Hx]].
+      + apply I4; [apply Hsub, in_or_app; left |]; assumption.
+      + cbn [jq jstage] in *. injection Sx as Hit. apply check_hit in Hit. destruct Hit as (c0 & Hc0 & Hsubset).
+        apply (sem_mono c0); [assumption | apply I3; assumption].
+      + apply I4; [apply Hsub, in_or_app; right |]; assumption.
+    - intros Fl. destruct (I5 Fl) as (C1 & C2 & C3). repeat split; try assumption.
+      rewrite E in C1. rewrite cnt_app in *. cbn [cnt badjob jq] in *. exact C1.
+  Qed.
+
+  Lemma sinv_step_cb : forall cache ee j c, sinv c -> sinv (cstep_cb cache ee j c).
+  Proof.
+    intros cache ee j c I. unfold cstep_cb.
+    destruct (cfind j (cjobs c)) as [[[pre b] post] |] eqn:F; [| assumption].
+    destruct (jstage b) as [| hit] eqn:S; [assumption |].
+    destruct (cfind_spec _ _ _ _ _ F) as [E _].
+    destruct I as [I1 I2 I3 I4 I5 I6 I7].
+    assert (Hb : In b (cjobs c)) by (rewrite E; apply in_or_app; right; left; reflexivity).
+    assert (Hsub : forall x, In x (pre ++ post) -> In x (cjobs c)).
+    { intros x Hx. rewrite E. apply in_app_or in Hx. apply in_or_app. destruct Hx; [left | right; right]; assumption. }
+    destruct (I2 b Hb) as [Hq Hp].
+    constructor; cbn [cmst ctodo cjobs ccores cflag couts cnstuck cnormal]; try assumption.
+    - intros x Hx. apply I2, Hsub. assumption.
+    - intros c0 Hc0.
+      destruct (gen_append_guard (is_unsat (get_solver_output (cflag c) (Some (fst (job_result cache (jq b) hit)))))
+                                 (if cflag c then None else snd (job_result cache (jq b) hit))) eqn:G;
+        [| apply I3; assumption].
+      apply guard_sound in G. destruct G as (U & x & l & C).
+      destruct (cflag c) eqn:Fl; [discriminate C |]. rewrite get_output_live in U. rewrite C in Hc0.
+      apply in_app_or in Hc0. destruct Hc0 as [Hc0 | [<- | []]]; [apply I3; assumption |].
+      unfold job_result in U, C. destruct hit; [discriminate C |]. cbn [fst snd] in U, C.
+      unfold reply_core in C. rewrite U in C. apply core_of_reply_some in C. destruct C as [_ C].
+      assert (A : ans (base (jq b)) = Unsat) by (destruct (ans (base (jq b))); try discriminate U; reflexivity).
+      destruct (solver_sound (jq b) Hq Hp A) as [_ Hc]. apply Hc; [assumption | discriminate].
+    - intros x Hx. apply I4, Hsub. assumption.
+    - (* counts *)
+      intros Fl. apply orb_false_elim in Fl. destruct Fl as [Fl _].
+      destruct (I5 Fl) as (C1 & C2 & C3). repeat split; try assumption.
+      rewrite Fl, get_output_live. rewrite E in C1. rewrite !cnt_app in *. cbn [cnt] in *.
+      assert (B : (if badjob b then 1 else 0) <= (if non_unsat (fst (job_result cache (jq b) hit)) then 1 else 0)).
+      { unfold badjob, bad. rewrite Hp. cbn [andb]. destruct (sem (qids (jq b))) eqn:Sm; cbn [negb]; [lia |].
+        unfold job_result. destruct hit.
+        - rewrite (I4 b Hb S) in Sm. discriminate Sm.
+        - cbn [fst]. unfold non_unsat. destruct (is_unsat (ans (base (jq b)))) eqn:U; cbn [negb]; [| lia].
+          assert (A : ans (base (jq b)) = Unsat) by (destruct (ans (base (jq b))); try discriminate U; reflexivity).
+          destruct (solver_sound (jq b) Hq Hp A) as [X _]. rewrite X in Sm. discriminate Sm. }
+      lia.
+    - (* flag *)
+      intros Fl. apply in_or_app. destruct (cflag c) eqn:F0; [left; apply I6; reflexivity |].
+      right. left. cbn [orb] in Fl. apply andb_prop in Fl. destruct Fl as [_ Fl].
+      destruct (get_solver_output false (Some (fst (job_result cache (jq b) hit)))) as [[|] | | |]; try discriminate Fl. reflexivity.
+    - intros M Fl. apply orb_false_elim in Fl. destruct Fl as [Fl _]. apply I7; assumption.
+  Qed.
+
+  Lemma sinv_run : forall cache ee sched, sinv (crun cache ee qs sched).
+  Proof.
+    intros cache ee sched. unfold crun.
+    assert (G : forall c, sinv c -> sinv (fold_left (cstep cache ee) sched c)).
+    { induction sched as [| e r IH]; intros c I; cbn [fold_left]; [assumption |]. apply IH.
+      destruct e; cbn [cstep];
+        [apply sinv_step_main | apply sinv_step_main_raise | apply sinv_step_start | apply sinv_step_cb]; assumption. }
+    apply G, sinv_init.
+  Qed.
+
+  Lemma cache_pass_sound : forall cache ee sched r,
+    cresult (crun cache ee qs sched) = Some r -> fst r = LPass ->
+    (forall p, In p qs -> potential (base p) = true -> sem (qids p) = true) /\
+    (forall p, In p qs -> kind (base p) = Stuck -> ans (base p) = Unsat) /\
+    (exists p, In p qs /\ kind (base p) = Success).
+  Proof.
+    intros cache ee sched r R P. pose proof (sinv_run cache ee sched) as I.
+    set (c := crun cache ee qs sched) in *. destruct I as [I1 I2 I3 I4 I5 I6 I7]. unfold cresult in R.
+    destruct (cmst c) eqn:M; try discriminate R.
+    2:{ inversion R; subst r. cbv in P. discriminate P. }
+    destruct (cjobs c) eqn:J; [| discriminate R]. inversion R; subst r. clear R.
+    destruct (cflag c) eqn:F.
+    { rewrite (sat_out_fail _ _ _ _ (I6 eq_refl)) in P. discriminate P. }
+    apply verdict_pass_inv in P. destruct P as (P1 & P2 & P3).
+    destruct (I5 eq_refl) as (C1 & C2 & C3). rewrite (I7 eq_refl eq_refl) in *. cbn [cnt] in *.
+    assert (B : cnt bad qs = 0) by lia. assert (T : cnt cstuckq qs = 0) by lia. assert (N : 0 < cnt succq qs) by lia.
+    repeat split.
+    - intros p Hin Hp. apply cnt_zero in B. destruct (sem (qids p)) eqn:Sm; [reflexivity |].
+      assert (X : existsb bad qs = true) by (apply existsb_exists; exists p; unfold bad; rewrite Hp, Sm; auto).
+      congruence.
+    - intros p Hin K. apply cnt_zero in T. destruct (is_unsat (ans (base p))) eqn:U.
+      + destruct (ans (base p)); try discriminate U; reflexivity.
+      + assert (X : existsb cstuckq qs = true)
+          by (apply existsb_exists; exists p; unfold cstuckq, confirmed_stuck; rewrite K, U; auto).
+        congruence.
+    - apply cnt_pos in N. apply existsb_exists in N. destruct N as (p & Hin & Hp). exists p. split; [assumption |].
+      unfold succq, succeeded in Hp. destruct (kind (base p)); try discriminate Hp. reflexivity.
+  Qed.
+End SemanticPass.
